@@ -450,6 +450,7 @@ func checkC16(c *Ctx) {
 	ruleQ8(c)
 	ruleQ9(c)
 	ruleQ6b(c)
+	ruleQ10(c, 3)
 }
 
 func checkC17(c *Ctx) {
